@@ -15,7 +15,8 @@ THEOREMS = ["C05_order_free", "C05_sorted", "C05_decode", "C05_record_determines
 RULE = ("branch maps of 0-30 branches; prefix-chain names over an adversarial alphabet; all six target kinds + "
         "dangling; alias targets: existing / missing / self / chains / 0-300 arbitrary bytes incl. NUL, ':' and digits; "
         "each map in two insertion orders; both ignore_unresolved values; constructor and from_dict; after every construction "
-        "the caller's own dict is mutated (branch added, removed, set to None) and id / compute_hash / manifest re-read; invalid "
+        "the branch map is also given as defaultdict / __missing__ subclass / OrderedDict / copy()-overriding subclass / "
+        "ImmutableDict (same id, same unresolved report, nothing inserted by formatting); the caller's own dict is mutated (branch added, removed, set to None) and id / compute_hash / manifest re-read; invalid "
         "branches (non-alias target not 20 bytes) included; non-trivial = >=2 branches incl. an alias or a dangling one")
 TRUSTED = ["Python sorted() on (name, branch) tuples with distinct names = byte order of names; '%d' formatting; dict semantics",
            "lib/Sha1.v as an instance of the hash oracle (validated against hashlib on every case)"]
@@ -122,6 +123,9 @@ def _build(branches, keep=None):
     return Snapshot(branches=d)
 
 
+_LAST_ID = [b"\x02" * 20]
+
+
 def impl(c):
     from swh.model import git_objects
     from swh.model.model import Snapshot
@@ -151,8 +155,48 @@ def impl(c):
         with warnings.catch_warnings():
             warnings.simplefilter("ignore")
             res["manifest_from_dict_arg"] = git_objects.snapshot_git_object(s.to_dict(), ignore_unresolved=True).hex()   # deprecated route
+            # ... carrying an id that is not its own (one value for the whole run, and the id of the previous case):
+            # the id key of the dict must not decide what is formatted
+            for stale in (b"\x01" * 20, _LAST_ID[0]):
+                git_objects.snapshot_git_object({"id": stale, "branches": {}}, ignore_unresolved=True)      # another object seen under that id first (self-contained replay)
+                m2 = git_objects.snapshot_git_object(dict(s.to_dict(), id=stale), ignore_unresolved=True).hex()
+                if m2 != res["manifest_from_dict_arg"]:
+                    res["manifest_from_dict_arg"] = "differs when the dict carries the id %s: %s" % (stale.hex(), m2[:80])
+            _LAST_ID[0] = s.id
     except Exception as e:
         res["manifest_from_dict_arg"] = "error:" + exc_class(e)
+    # the branch map given in other container shapes (a defaultdict or a __missing__ subclass must not leak its
+    # behaviour into the snapshot: looking up a missing alias target must stay a miss)
+    try:
+        import collections
+        from swh.model.collections import ImmutableDict
+
+        class _Missing(dict):
+            def __missing__(self, k):
+                return None
+
+        class _CopySelf(dict):
+            def copy(self):
+                return self
+        plain = kept_plain = dict(_build(c["branches"]).branches.items())
+        shapes = {"defaultdict": collections.defaultdict(lambda: None, plain), "missing": _Missing(plain),
+                  "ordered": collections.OrderedDict(plain), "copyself": _CopySelf(plain), "idict": ImmutableDict(plain)}
+        facts = []
+        for nm, arg in shapes.items():
+            try:
+                s2 = Snapshot(branches=arg)
+                f = [s2.id.hex(), s2.compute_hash().hex(), len(s2.branches)]
+                try:
+                    f.append(git_objects.snapshot_git_object(s2, ignore_unresolved=c["ignore"]).hex())
+                except ValueError as e:
+                    f.append("unresolved:" + repr(sorted((a.hex(), b.hex()) for a, b in e.args[1])))
+                f.append(len(s2.branches))
+            except Exception as e:
+                f = ["error:" + exc_class(e)]
+            facts.append([nm, f])
+        res["shapes"] = facts
+    except Exception as e:
+        res["shapes"] = "error:" + exc_class(e)
     try:
         res["id_perm"] = _build([c["branches"][i] for i in c["perm"]]).id.hex()
     except Exception as e:
@@ -237,6 +281,14 @@ def oracle(c, ires, mres):
         return "id depends on insertion order or on the construction route"
     if ires["swhid"] != "swh:1:snp:" + ires["id"]:
         return "swhid() does not carry the id"
+    if isinstance(ires.get("shapes"), str):
+        return "building the snapshot from other container shapes crashed: " + ires["shapes"]
+    for nm, f in ires.get("shapes", []):
+        want_last = ires["manifest"] if "manifest" in ires else ("unresolved:" + repr(sorted((a, t) for a, t in ires["unresolved"]))
+                                                                 if isinstance(ires.get("unresolved"), list) else None)
+        if f[0] != ires["id"] or f[1] != ires["id"] or f[2] != len(b) or f[4] != len(b) or (want_last is not None and f[3] != want_last):
+            return ("a snapshot whose branches are given as a %s differs from the one built from a plain dict "
+                    "(id, compute_hash, number of branches before/after formatting, manifest or unresolved report): %s" % (nm, str(f)[:160]))
     if ires["after_caller_mutation"] != [ires["id"], ires["id"], ires["manifest_ignore"], len(b)]:
         return ("after the caller mutated the dict it had passed as `branches`, the snapshot's id / compute_hash() / manifest / "
                 "number of branches are no longer those of the snapshot that was built: %s" % str(ires["after_caller_mutation"])[:120])
